@@ -53,6 +53,8 @@ SCHEMA = {
         "options": "obj:OptionsDict", "block": "obj:ParserBlock", "inline": "obj:ParserInline",
         "core": "obj:ParserCore", "renderer": "opaque", "linkify": "opaque", "utils": "opaque", "helpers": "opaque",
     },
+    # abstract view of a token in a children list: only the fields the typographic rules look at
+    "TokenA": {"type": "atom", "info": "atom", "content": "atom", "level": "int", "nesting": "int"},
     "ParserBlock": {"ruler": "obj:Ruler"},
     "ParserInline": {"ruler": "obj:Ruler", "ruler2": "obj:Ruler"},
     "ParserCore": {"ruler": "obj:Ruler"},
